@@ -320,7 +320,9 @@ func runC10(c *Ctx) {
 			var sb *labels.Block
 			var kept, split uint64
 			var serr error
-			if p := safely(func() { sb, kept, split, serr = pb.Split(labels.SplitOp{Target: target, NewLabel: newLabel, RLEs: offsetRuns(rs, dvid.Point3d{0, 0, 0})}) }); p != "" || serr != nil {
+			if p := safely(func() {
+				sb, kept, split, serr = pb.Split(labels.SplitOp{Target: target, NewLabel: newLabel, RLEs: offsetRuns(rs, dvid.Point3d{0, 0, 0})})
+			}); p != "" || serr != nil {
 				c.Report("O", "C10 split-fails", "Split fails or panics", blockReplay(dv, h2+p+fmt.Sprint(serr)+"\n"))
 				continue
 			}
